@@ -25,7 +25,10 @@ import (
 //
 //   table = "_" or ";"-separated <token hex>/<idna.ToASCII(token) hex or "!">, one entry for every
 //           space/tab separated token of the comment-stripped line
-//   fmt   = Addr.MarshalText() of the address (Addr.String() for valid addresses)
+//   fmt   = Addr.MarshalText() of the address (Addr.String() for valid addresses); kept in the line for
+//           readability, ignored by the Lean driver, which formats the address with its own model
+//           of netip.Addr.MarshalText (Go/NetipFmt.lean)
+//   std.addrstring <addr>                 (netipfmt.go) netip.Addr.String / MarshalText vs the model
 
 // c07fail is fail with the message made safe for the tab-separated, UTF-8 result line.
 func c07fail(key, format string, a ...any) string {
@@ -179,6 +182,8 @@ func parseNamesGo(s string) []string {
 func evalC07(c string) Result {
 	f := strings.Split(c, " ")
 	switch f[0] {
+	case "std.addrstring":
+		return evalAddrString(f)
 	case "C07.cut", "C07.cuts":
 		data := unhx(f[1])
 		var field, tail string
@@ -230,7 +235,8 @@ func evalC07(c string) Result {
 			case err2 != nil || rec2.Addr != rec.Addr || !slices.Equal(rec2.Names, rec.Names):
 				direct = c07fail("roundtrip", "%q parsed to %+v, marshalled %q, re-parsed to %+v err=%v", line, *rec, data, *rec2, err2)
 			}
-			// contract ADDR-RT, sampled: ParseAddr(a.String()) = a, MarshalText = String,
+			// the former contract ADDR-RT (now Lean theorem addr_roundtrip over the netip
+			// models) on the real functions: ParseAddr(a.String()) = a, MarshalText = String,
 			// and the text has no blank / '#'
 			txt := rec.Addr.String()
 			mt, _ := rec.Addr.MarshalText()
@@ -412,6 +418,8 @@ func genC07(rng *rand.Rand, tier string) (cases []string) {
 			cases = append(cases, c07UnmarshalCase(pick(rng, "0", "0", "0", "1"), genHostsLine(rng)))
 		}
 	}
+	// the formatter model behind `formatAddr` (Go/NetipFmt.lean), formerly contract ADDR-RT
+	cases = append(cases, genAddrString(rng, tier)...)
 	return cases
 }
 
